@@ -467,11 +467,13 @@ fn ctx_src(ctx: usize, k: usize, t: &str, lit: &str) -> String {
     }
 }
 
-const N_UCTX: usize = 14;
+const N_UCTX: usize = 15;
 const UCTX_NAMES: [&str; N_UCTX] = [
     "local", "global", "arith", "arith-rev", "neg",
     // the literal wrapped in an expression that passes its value through unchanged
     "paren", "comptime", "block", "if", "switch-arm", "array-elem", "labelled-break", "paren-arith", "assign-paren",
+    // an inner literal of a nested anonymous array next to a sibling that stays small (fix ad9b03f)
+    "nested-array-elem",
 ];
 
 /// statements defining `x` from the unannotated literal in wrapper context `ctx` (>= 5)
@@ -485,7 +487,8 @@ fn wrapper_stmts(ctx: usize, k: usize, lit: &str) -> String {
         10 => format!("a{k} := .[{lit}, 1]; x := a{k}[0];"),
         11 => format!("x := `w{k}: {{ break `w{k} {lit}; }};"),
         12 => format!("x := ({lit}) + 0;"),
-        _ => format!("x := 3000000000; x = ({lit});"),
+        13 => format!("x := 3000000000; x = ({lit});"),
+        _ => format!("a{k} := .[.[{lit}, 1], .[2, 3]]; x := a{k}[0][0];"),
     }
 }
 
@@ -609,7 +612,7 @@ fn build_note(o: &e2e::Outcome) -> String {
 pub fn run(tier: &str, seed: u64, widen: bool) -> Report {
     let mut rep = Report::new(
         "C09",
-        "A: real lexer+parser+hir::lower on integer spellings vs Lean lowerInt; F: the same on string/char literals vs lowerString/lowerChar; B/C: real hir_ty (in-process front end) on annotated / unannotated literals in 17+14 syntactic contexts (unannotated: local, global, arithmetic, negation, and nine value-preserving wrappers: parentheses, comptime block, block, if, switch arm, array element, labelled break, parenthesised operand, parenthesised assignment) vs acceptsAt / defaultTy; D: real capy CLI + built executable printing every accepted literal vs finalValue; E: float literal bit patterns at run time vs Rust str::parse",
+        "A: real lexer+parser+hir::lower on integer spellings vs Lean lowerInt; F: the same on string/char literals vs lowerString/lowerChar; B/C: real hir_ty (in-process front end) on annotated / unannotated literals in 17+15 syntactic contexts (unannotated: local, global, arithmetic, negation, and ten value-preserving wrappers: parentheses, comptime block, block, if, switch arm, array element, labelled break, parenthesised operand, parenthesised assignment, inner item of a nested anonymous array) vs acceptsAt / defaultTy; D: real capy CLI + built executable printing every accepted literal vs finalValue; E: float literal bit patterns at run time vs Rust str::parse",
         "exhaustive boundary set: 0,1,9,10,100,255,256,1000, 2^w-2..2^w+1 for w in {7,8,15,16,31,32,63,64}, 3e9, 1e19, 1.8e19, 2^64±6, 2e19, 1e20, 2^65, 10*2^64; every value in every systematic spelling (plain, thousands separators, leading zeros, e0, every trailing-zero exponent form, hex lower/upper/padded, binary/padded) plus seeded random separator/case/padding variations and random mantissa/exponent spellings; annotated at all 12 integer types in 15 contexts, unannotated in 5; every escape character (all printable ASCII after a backslash + non-ASCII) valid or not, in strings and chars; non-trivial = value within 2 of a type boundary, a spelling with separator/exponent/radix prefix, or a literal with an escape; distinct by (stream, context, type, spelling)",
     );
     if std::env::var("CVH_LOUD").is_ok() {
